@@ -9,7 +9,7 @@ package primev
 //@
 //@ func computeIdentity
 //@
-//@ pred isCommitmentMsg(msg) := msg != nil && (typeis(msg, "*p2pmsg.Commitment") ==> (as(msg, "*p2pmsg.Commitment") != nil && len(as(msg, "*p2pmsg.Commitment").Identities) <= 1048576))
+//@ pred isCommitmentMsg(msg) := msg != nil && (typeis(msg, "*p2pmsg.Commitment") ==> (as(msg, "*p2pmsg.Commitment") != nil))
 //@ func (*PrimevCommitmentHandler).ValidateMessage
 //@   requires h != nil && h.config != nil && isCommitmentMsg(msg)
 //@   ensures ret0 == 0 || ret0 == 1
